@@ -19,7 +19,8 @@ Fam(v, reg) == IF v.ty \in OpaqueTy THEN v.o.fam ELSE FamOfTy(v.ty, reg)
 TypeName(v) == IF v.ty \in OpaqueTy THEN v.o.tn ELSE IF v.ty = "osPathError" THEN "fsPathError" ELSE v.ty
 \* extension of the type mark (errbase.TypeKeyMarker): the domain
 Ext(v) == IF v.ty \in OpaqueTy THEN v.o.ext
-          ELSE IF v.ty \in {"withDomain", "uKeyWrap"} THEN v.s ELSE <<>>
+          ELSE IF v.ty \in {"withDomain", "uKeyWrap"} THEN v.s
+          ELSE IF v.ty = "uKeyLeaf" THEN v.a[1] ELSE <<>>
 
 TypeMark(v, reg) == [f |-> Fam(v, reg), x |-> Ext(v)]
 
